@@ -37,13 +37,13 @@ func (g *G) def(k string) *Def {
 	}
 	switch {
 	case isIntTy(k):
-		return &[]Def{{V: "5"}, {V: "1"}, {V: "+13"}, {V: "42"}, {Raw: true, V: "1 + 1"}, {Raw: true, V: "abs(-3)"}}[g.r.Intn(6)]
+		return &[]Def{{V: "5"}, {V: "1"}, {V: "+13"}, {V: "42"}, {Raw: true, V: "1 + 1"}, {Raw: true, V: "abs(-3)"}, {Raw: true, V: "random()"}}[g.r.Intn(7)]
 	case k == "boolean":
 		return &[]Def{{V: "true"}, {V: "false"}, {V: "1"}, {V: "0"}}[g.r.Intn(4)]
 	case isNumTy(k):
 		return &[]Def{{V: "1.5"}, {V: "2"}, {V: "2.25"}, {Raw: true, V: "1.5 + 1"}}[g.r.Intn(4)]
 	case k == "datetime" || k == "date":
-		return &[]Def{{V: "'2020-01-01 00:00:00'"}, {Raw: true, V: "CURRENT_TIMESTAMP"}, {V: "2021-02-03"}}[g.r.Intn(3)]
+		return &[]Def{{V: "'2020-01-01 00:00:00'"}, {Raw: true, V: "CURRENT_TIMESTAMP"}, {V: "2021-02-03"}, {Raw: true, V: "datetime('now')"}}[g.r.Intn(4)]
 	case k == "blob":
 		return &[]Def{{V: "x'00ff'"}, {V: "'ab'"}}[g.r.Intn(2)]
 	case k == "json":
@@ -369,7 +369,13 @@ func (g *G) table(s *Schema, name string) Table {
 	nk := g.r.Intn(3)
 	for i := 0; i < nk; i++ {
 		if k, ok := g.check(&t, i); ok {
-			t.Checks = append(t.Checks, k)
+			dup := false
+			for _, o := range t.Checks { // two checks with one expression: dropping one is invisible to the differ (known finding)
+				dup = dup || mayWrap(o.Expr) == mayWrap(k.Expr)
+			}
+			if !dup || g.allowKnown {
+				t.Checks = append(t.Checks, k)
+			}
 		}
 	}
 	return t
@@ -632,7 +638,7 @@ var edits = []edit{
 		k, ok := g.check(t, 5+g.r.Intn(4))
 		if ok {
 			for _, o := range t.Checks {
-				if o.Name == k.Name && k.Name != "" || o.Expr == k.Expr {
+				if o.Name == k.Name && k.Name != "" || mayWrap(o.Expr) == mayWrap(k.Expr) {
 					return false
 				}
 			}
@@ -654,6 +660,11 @@ var edits = []edit{
 		}
 		k := &t.Checks[g.r.Intn(len(t.Checks))]
 		k.Expr = "(" + k.Expr + ") OR 1 = 1"
+		for i := range t.Checks {
+			if &t.Checks[i] != k && mayWrap(t.Checks[i].Expr) == mayWrap(k.Expr) {
+				k.Expr = "(" + k.Expr + ") OR 2 = 2"
+			}
+		}
 		return true
 	}},
 	{"change-pk", func(g *G, s *Schema, t *Table) bool {
@@ -664,10 +675,12 @@ var edits = []edit{
 				}
 			}
 		}
-		old := t.PK
+		if len(t.AutoIncCols) > 0 && !g.allowKnown { // AUTOINCREMENT changes are invisible to the differ (known finding)
+			return false
+		}
 		g.setPK(t)
-		if t.Strict || true {
-			_ = old
+		if len(t.AutoIncCols) > 0 && !g.allowKnown {
+			t.AutoIncCols = nil
 		}
 		return true
 	}},
@@ -747,8 +760,18 @@ func (g *G) mutate(s *Schema, n int, mix bool) []string {
 	return kinds
 }
 
-// pair returns a current/desired pair and a short description.
+// pair returns a current/desired pair and a short description; unless allowKnown, a pair in one of
+// the input classes of the open known findings is drawn again.
 func (g *G) pair() (Schema, Schema, string) {
+	for try := 0; ; try++ {
+		a, b, d := g.pair1()
+		if g.allowKnown || try > 30 || classify(a, b) == "none" {
+			return a, b, d
+		}
+	}
+}
+
+func (g *G) pair1() (Schema, Schema, string) {
 	a := g.schema()
 	switch g.r.Intn(10) {
 	case 0: // unrelated
